@@ -379,9 +379,64 @@ def variant_election(rnd, e):
     return v
 
 
+def scaled_twin_session(rnd, extended):
+    """a predecessor and a target whose stored numbers coincide although their arithmetic parameters differ: the same
+    election with every multiplier times 10^j, counted at a precision lower by j (3 votes at precision 9 and 30 votes at
+    precision 8 are the same raw integer).  A cache keyed by raw value, or by parameters that a refused construction
+    left half-updated, serves the predecessor's strings to the target only under such a coincidence (wave 10, ib-m1)."""
+    import copy     # pylint: disable=import-outside-toplevel
+    e = gen.gen_election(rnd, rule='wigm', small=True,
+                         flags=dict(ids=False, huge_mult=False, big_mult=False, equal=False, undeclared=False))
+    j = rnd.choice((1, 1, 2, 3))
+    e10 = copy.deepcopy(e)
+    for b in e10['ballots']:
+        b[0] *= 10 ** j
+    fam = rnd.choice(('fixed', 'guarded', 'guarded'))
+    rule = rnd.choice(('wigm', 'wigm', 'wigm', 'meek', 'warren'))
+    p_hi = rnd.randint(j + 1, 10)
+    p_lo = p_hi - j
+    hi = {'rule': rule, 'arithmetic': fam, 'precision': p_hi}
+    lo = {'rule': rule, 'arithmetic': fam, 'precision': p_lo}
+    if fam == 'guarded':
+        g = rnd.choice((0, 1, 3, 6))
+        hi['guard'] = g
+        lo['guard'] = g if rnd.random() < 0.8 else g + j      # same guard, or the same total number of digits
+    if rnd.random() < 0.7:
+        d = rnd.choice((0, 1, 2, 3, 5, 8, 9, 12))
+        hi['display'] = d
+        lo['display'] = d if rnd.random() < 0.8 else rnd.choice((0, 2, 4, 9))
+    texts = [gen.render_blt(e, rnd), gen.render_blt(e10, rnd)]
+    if rnd.random() < 0.5:
+        pred, target = (0, hi), (1, lo)
+    else:
+        pred, target = (1, lo), (0, hi)
+    ops = []
+    tags = {'scaled_twin'}
+    if rnd.random() < 0.3:
+        ops.append(dict(op='count', profile=rnd.randrange(2), share=False,
+                        options=same_class_options(rnd, target[1]), render=_render_choice(rnd)))
+    ops.append(dict(op='count', profile=pred[0], share=False, options=dict(pred[1]),
+                    render=_render_choice(rnd) or ['report']))
+    if extended:
+        # a construction refused half-way through initialising the class with the target's precision
+        bad = dict(target[1])
+        bad.pop('display', None)
+        key = rnd.choice(('guard', 'display')) if fam == 'guarded' else 'display'
+        bad[key] = rnd.choice(('x', '-1', '1.5', 'all'))
+        if key == 'display' and fam == 'guarded' and rnd.random() < 0.5:
+            bad['guard'] = rnd.choice((0, 1, 3, 6))
+        ops.append(dict(op='construct-fails', profile=target[0], share=False, options=bad))
+        tags.add('extended_ops')
+    tgt = dict(op='count', profile=target[0], share=False, options=dict(target[1]),
+               render=list(rnd.choice(RENDER_ORDERS)))
+    return dict(texts=texts, ops=ops, target=tgt, tags=sorted(tags))
+
+
 def gen_session(seed, idx, extended=False):
     "deterministic session idx: dict(texts, ops, target, tags)"
     rnd = rng(seed, 'hist-x' if extended else 'hist', idx)
+    if idx % 25 == 7 or (extended and idx % 5 == 2):
+        return scaled_twin_session(rnd, extended)
     ntexts = rnd.choice((1, 1, 2, 2, 3))
     texts = []
     elections = []
